@@ -202,4 +202,16 @@ CHECKS = {
         assumptions=["column names longer than 32 bytes are outside the domain: such buckets cannot be created (C15)"],
         technique="round-trip property-based testing",
     ),
+    "C30": dict(
+        test="TestC30", level="exploration", shards=16,
+        tiers=dict(quick=dict(checks=1, timeout=600), thorough=dict(checks=1, timeout=3000)),
+        rule="8 configured zones (UTC, New_York, Tokyo, Kolkata, Lord_Howe, Moscow, Sao_Paulo, London) x all on-disk "
+             "timeframes: timestamps 1990-2040 (one third within 2 slots of a year edge or of a DST/offset transition "
+             "found by scanning the zone) checked for slot containment, same year, TimeToIndex(IndexToTime)=id and "
+             "Headersize <= offset <= FileSize-recordLength; plus full sweeps of every slot of (zone, timeframe>=1Min, "
+             "year) triples: index->time->index, strictly increasing slot starts; non-trivial = timestamps near a year "
+             "edge or transition (random draws, counted) and each full-year sweep",
+        assumptions=["process time zone (time.Local) is UTC, as in the server's default deployment"],
+        technique="stratified enumeration + randomized search against arithmetic oracles",
+    ),
 }
